@@ -1012,12 +1012,21 @@ func doInEval(env Env, lhs types.EntityUID, rhs types.Value) (types.Value, error
 		return types.Boolean(entityInOne(env, lhs, rhsv)), nil
 	case types.Set:
 		query := mapset.Make[types.EntityUID](rhsv.Len())
+		// set iteration order is random: report the same error no matter which
+		// non-entity member is met first
+		var firstErr error
 		for rhv := range rhsv.All() {
 			e, err := ValueToEntity(rhv)
 			if err != nil {
-				return zeroValue(), err
+				if firstErr == nil || err.Error() < firstErr.Error() {
+					firstErr = err
+				}
+				continue
 			}
 			query.Add(e)
+		}
+		if firstErr != nil {
+			return zeroValue(), firstErr
 		}
 		return types.Boolean(entityInSet(env, lhs, query)), nil
 	}
